@@ -65,6 +65,10 @@ type c3Attempt struct {
 	tok    []bool
 	ls     []c3LScript
 	cancel string // "" | "start" | "verifying <k>" | "writing": the caller cancels at that progress callback
+	// realisation details the model does not see (kept in the line for replay):
+	tokShape []string // JSON shape of the i-th scripted token answer ("" = the usual one); consistent with tok[i]
+	validate bool     // the registry really validates bearer tokens (tokens of earlier attempts are expired); the
+	//                   401 at the head of ms is then produced by that validation, not by the script
 }
 
 type c3Man struct {
@@ -92,6 +96,7 @@ type c3Case struct {
 	reg                      c3Manifest
 	content                  []c3Blob
 	attempts                 []c3Attempt
+	rawManifest              string // JSON shape in which reg is served ("" = plain json.Marshal); see c3RawManifest
 	tag                      string // generator label (stats only, not part of the line)
 }
 
@@ -105,9 +110,9 @@ func c3b(b bool) string {
 func (m c3Manifest) line(sb *strings.Builder) {
 	fmt.Fprintf(sb, " %d", len(m.layers))
 	for _, l := range m.layers {
-		fmt.Fprintf(sb, " %s %d", l.ref, l.size)
+		fmt.Fprintf(sb, " %s %s", l.ref, c3SizeTok(l.size))
 	}
-	fmt.Fprintf(sb, " %s %d", m.config.ref, m.config.size)
+	fmt.Fprintf(sb, " %s %s", m.config.ref, c3SizeTok(m.config.size))
 }
 
 func (r c3Reply) line(sb *strings.Builder) {
@@ -175,6 +180,14 @@ func (a c3Attempt) line(sb *strings.Builder) {
 	} else {
 		sb.WriteString(" cancel " + a.cancel)
 	}
+	fmt.Fprintf(sb, " tokshape %d", len(a.tokShape))
+	for _, t := range a.tokShape {
+		if t == "" {
+			t = "-"
+		}
+		sb.WriteString(" " + t)
+	}
+	sb.WriteString(" validate " + c3b(a.validate))
 }
 
 // line renders the oracle command of the case.
@@ -219,6 +232,11 @@ func (c *c3Case) line() string {
 	for _, a := range c.attempts {
 		a.line(&sb)
 	}
+	if c.rawManifest == "" {
+		sb.WriteString(" raw -")
+	} else {
+		sb.WriteString(" raw " + c.rawManifest)
+	}
 	return sb.String()
 }
 
@@ -257,10 +275,10 @@ func (p *c3Toks) manifest() c3Manifest {
 	n := int(p.nat())
 	for i := 0; i < n; i++ {
 		r := p.tok()
-		m.layers = append(m.layers, c3Layer{r, p.nat()})
+		m.layers = append(m.layers, c3Layer{r, p.size()})
 	}
 	r := p.tok()
-	m.config = c3Layer{r, p.nat()}
+	m.config = c3Layer{r, p.size()}
 	return m
 }
 
@@ -349,45 +367,11 @@ func c3Parse(line string) *c3Case {
 	}
 	p.expect("attempts")
 	for n := p.nat(); n > 0; n-- {
-		var a c3Attempt
-		p.expect("ms")
-		for k := p.nat(); k > 0; k-- {
-			a.ms = append(a.ms, p.reply())
-		}
-		p.expect("tok")
-		for k := p.nat(); k > 0; k-- {
-			a.tok = append(a.tok, p.nat() != 0)
-		}
-		p.expect("ls")
-		for k := p.nat(); k > 0; k-- {
-			l := c3LScript{dig: p.tok()}
-			p.expect("head")
-			for j := p.nat(); j > 0; j-- {
-				l.head = append(l.head, p.reply())
-			}
-			p.expect("direct")
-			for j := p.nat(); j > 0; j-- {
-				l.direct = append(l.direct, p.reply())
-			}
-			p.expect("chunks")
-			for j := p.nat(); j > 0; j-- {
-				var cs []c3Chunk
-				for i := p.nat(); i > 0; i-- {
-					cs = append(cs, p.chunk())
-				}
-				l.chunks = append(l.chunks, cs)
-			}
-			a.ls = append(a.ls, l)
-		}
-		p.expect("cancel")
-		switch t := p.tok(); t {
-		case "none":
-		case "verifying":
-			a.cancel = "verifying " + p.tok()
-		default:
-			a.cancel = t
-		}
-		c.attempts = append(c.attempts, a)
+		c.attempts = append(c.attempts, p.attempt())
+	}
+	p.expect("raw")
+	if t := p.tok(); t != "-" {
+		c.rawManifest = t
 	}
 	return c
 }
@@ -424,4 +408,16 @@ func (c *c3Case) fixUniv() {
 		c.univ = append(c.univ, d)
 	}
 	sort.Strings(c.univ)
+}
+
+// sizes are int64 in the code; the protocol carries them as unsigned (two's complement) so that a manifest with a
+// negative size is representable on both sides
+func c3SizeTok(v int64) string { return strconv.FormatUint(uint64(v), 10) }
+
+func (p *c3Toks) size() int64 {
+	v, err := strconv.ParseUint(p.tok(), 10, 64)
+	if err != nil {
+		panic("c03: bad size in case line: " + err.Error())
+	}
+	return int64(v)
 }
